@@ -4,8 +4,10 @@ import (
 	"bytes"
 	"context"
 	"errors"
+	"runtime"
 	"strconv"
 	"sync"
+	"sync/atomic"
 	"testing"
 	"testing/synctest"
 	"time"
@@ -29,6 +31,35 @@ type Cfg struct {
 	CloseMs  int      `json:"closeMs"`
 	StartSeq int      `json:"startSeq"` // outgoing counter / foreign messages already in the shared store
 	Buf      int      `json:"buf"`
+	Yield    int      `json:"yield"` // >0: the stores yield the processor up to this many times inside every call
+}
+
+// yieldingStore delays inside the application's stores (scheduler yields only: a virtual-time sleep
+// while the session holds its lock would stall a synctest bubble).
+type yieldingStore struct {
+	*memory.Storage
+	n   int
+	ctr uint32
+}
+
+func (y *yieldingStore) pause() {
+	k := int(atomic.AddUint32(&y.ctr, 2654435761)>>16) % (y.n + 1)
+	for i := 0; i < k; i++ {
+		runtime.Gosched()
+	}
+}
+
+func (y *yieldingStore) GetNextSeqNum(id fix.StorageID) (int, error) {
+	n, err := y.Storage.GetNextSeqNum(id)
+	y.pause()
+	return n, err
+}
+
+func (y *yieldingStore) Save(id fix.StorageID, msg simplefixgo.SendingMessage, seq int) error {
+	y.pause()
+	err := y.Storage.Save(id, msg, seq)
+	y.pause()
+	return err
 }
 
 type Scenario struct {
@@ -148,6 +179,12 @@ func NewRig(cfg Cfg) (*Rig, error) {
 	if allowed == nil {
 		allowed = []string{"0"}
 	}
+	var cs session.CounterStorage = r.Store
+	var ms session.MessageStorage = r.Store
+	if cfg.Yield > 0 {
+		ys := &yieldingStore{Storage: r.Store, n: cfg.Yield}
+		cs, ms = ys, ys
+	}
 	var err error
 	if cfg.Role == "acceptor" {
 		r.H = simplefixgo.NewAcceptorHandler(ctx, fixgen.FieldMsgType, cfg.Buf)
@@ -160,14 +197,14 @@ func NewRig(cfg Cfg) (*Rig, error) {
 				return errors.New("refused by the application")
 			}
 			return nil
-		}, r.Store, r.Store)
+		}, cs, ms)
 	} else {
 		r.H = simplefixgo.NewInitiatorHandler(ctx, fixgen.FieldMsgType, cfg.Buf)
 		r.S, err = session.NewInitiatorSession(r.H, Opts(allowed), &session.LogonSettings{
 			TargetCompID: peerID, SenderCompID: ourID,
 			HeartBtInt: cfg.HbCfg, EncryptMethod: cfg.EncCfg, Username: "user", Password: "good",
 			CloseTimeout: time.Duration(cfg.CloseMs) * time.Millisecond,
-		}, r.Store, r.Store)
+		}, cs, ms)
 	}
 	if err != nil {
 		cancel()
